@@ -210,8 +210,83 @@ func forwardLoad(u *ssa.UnOp) ssa.Value {
 		if len(stores) == 1 {
 			return stores[0].Val
 		}
+		// (c) several stores, but exactly one of them reaches this load on every path (named results
+		// spilled to memory because of a defer: `*err = x; if *err != nil { return *err }`)
+		if st := uniqueReachingStore(u, alloc); st != nil {
+			return st.Val
+		}
 	}
 	return nil
+}
+
+// uniqueReachingStore: the one store to alloc that reaches the load on every path from the entry, or nil.
+// Only for allocs used by nothing but direct loads and stores in their own function (not captured, no
+// address escaping), so that calls in between cannot change them.
+func uniqueReachingStore(u *ssa.UnOp, alloc *ssa.Alloc) *ssa.Store {
+	refs := alloc.Referrers()
+	if refs == nil {
+		return nil
+	}
+	for _, r := range *refs {
+		switch x := r.(type) {
+		case *ssa.Store:
+			if x.Addr != ssa.Value(alloc) {
+				return nil // the address itself is stored somewhere
+			}
+		case *ssa.UnOp:
+			if x.Op != token.MUL {
+				return nil
+			}
+		case *ssa.DebugRef:
+		default:
+			return nil
+		}
+	}
+	var found *ssa.Store
+	ok := true
+	seen := map[*ssa.BasicBlock]bool{}
+	// scan block b backwards starting before instruction index idx (idx == len: whole block)
+	var scan func(b *ssa.BasicBlock, idx int)
+	scan = func(b *ssa.BasicBlock, idx int) {
+		if !ok {
+			return
+		}
+		for i := idx - 1; i >= 0; i-- {
+			if st, isStore := b.Instrs[i].(*ssa.Store); isStore && st.Addr == ssa.Value(alloc) {
+				if found != nil && found != st {
+					ok = false
+				}
+				found = st
+				return
+			}
+		}
+		if len(b.Preds) == 0 {
+			ok = false // reaches the entry without a store: the zero value
+			return
+		}
+		for _, p := range b.Preds {
+			if seen[p] {
+				continue
+			}
+			seen[p] = true
+			scan(p, len(p.Instrs))
+		}
+	}
+	b := u.Block()
+	idx := -1
+	for i, ins := range b.Instrs {
+		if ins == ssa.Instruction(u) {
+			idx = i
+		}
+	}
+	if idx < 0 {
+		return nil
+	}
+	scan(b, idx)
+	if !ok {
+		return nil
+	}
+	return found
 }
 
 func sameFieldAddr(a, b ssa.Value) bool {
@@ -386,6 +461,31 @@ type Fact struct {
 	X, Y  ssa.Value   // resolved (store->load forwarded, wrappers stripped)
 	Bool  ssa.Value   // for Op==ILLEGAL: the boolean value itself
 	Truth bool        // for Op==ILLEGAL: its truth on this edge
+	// Via: the fact was derived inside the small boolean helper called here; its operands may be values
+	// of that helper (parameters stand for the call's arguments: see ArgFor).
+	Via *ssa.Call
+}
+
+// ArgFor maps a parameter of the helper a fact was derived in to the argument at the helper call
+// (any other value is returned unchanged).
+func (f Fact) ArgFor(v ssa.Value) ssa.Value {
+	if f.Via == nil {
+		return v
+	}
+	p, ok := v.(*ssa.Parameter)
+	if !ok {
+		return v
+	}
+	fn := Callee(f.Via).Static
+	if fn == nil || p.Parent() != fn {
+		return v
+	}
+	for i, q := range fn.Params {
+		if q == p && i < len(f.Via.Call.Args) {
+			return f.Via.Call.Args[i]
+		}
+	}
+	return v
 }
 
 func negate(op token.Token) token.Token {
@@ -824,6 +924,10 @@ func Root(v ssa.Value) ssa.Value {
 
 // helperFacts returns the facts implied by "call returns pol" for a static callee with a body,
 // a single boolean result and at most 8 blocks, when exactly one return can produce pol.
+// HelperFacts exports helperFacts: the facts that hold inside a small boolean helper whenever its result
+// #idx is pol (in terms of the helper's own values; direct parameter operands are replaced by the arguments).
+func HelperFacts(call *ssa.Call, idx int, pol bool) []Fact { return helperFacts(call, idx, pol, 0) }
+
 func helperFacts(call *ssa.Call, idx int, pol bool, depth int) []Fact {
 	if depth > 3 {
 		return nil
@@ -867,11 +971,15 @@ func helperFacts(call *ssa.Call, idx int, pol bool, depth int) []Fact {
 	}
 	out := make([]Fact, 0, len(cand))
 	for _, f := range cand {
+		via := f.Via
+		if via == nil {
+			via = call
+		}
 		if f.Op == token.ILLEGAL {
-			out = append(out, Fact{Bool: subst(f.Bool), Truth: f.Truth})
+			out = append(out, Fact{Bool: subst(f.Bool), Truth: f.Truth, Via: via})
 			continue
 		}
-		out = append(out, Fact{Op: f.Op, X: subst(f.X), Y: subst(f.Y)})
+		out = append(out, Fact{Op: f.Op, X: subst(f.X), Y: subst(f.Y), Via: via})
 	}
 	return out
 }
